@@ -1919,3 +1919,52 @@ def ob_token(ctx, tier):
     if len(fs) != 1 or not isinstance(fs[0].ret, Agg) or not valid(None, fs[0].ret.fields[2] == 0)[0]:
         c.failing.append("forget_sub_id_does_not_zero_the_sub_id")
     return result(not c.failing, c.witness, c.failing, c.cex, "", dec + enc + iv + ss + fs, cfg)
+
+
+# ---------------------------------------------------------------- C02 / C05 / C12: Poll::poll
+def ob_poll(ctx, tier):
+    """Poll::poll: the poller is ALWAYS waited on (that is where fd readiness is collected), exactly
+    once, with the clamped timeout; every successful path then drains the timer wheel with
+    next_expired(now) until it returns None -- whether or not fd events were collected -- and every
+    expired entry becomes an event carrying the entry's token; a poller error is returned"""
+    c = Chk()
+    f, paths, cfg = run_fn(ctx, r"::poll\(_1: &sys::Poll, _2: Option<Duration>", unroll=1)
+    for p in paths:
+        if p.status == "panic":
+            continue
+        w = calls(p, r"Poller::wait$")
+        nd = calls(p, r"TimerWheel::next_deadline$")
+        ne = calls(p, r"TimerWheel::next_expired$")
+        if len(w) != 1:
+            c.fail("poller_not_waited_on_exactly_once", p)
+            continue
+        if not nd or nd[0].idx > w[0].idx:
+            c.fail("timeout_not_clamped_to_the_next_deadline", p)
+        c.witness = True
+        werr = entails(ctx, p.pc, dz(w[0].ret.disc) == 1)[0]
+        if werr:
+            if not ret_is(p, 1) or ne:
+                c.fail("poller_error_not_returned", p)
+            continue
+        conv = calls(p, r"as Iterator>::collect::<")
+        if conv and entails(ctx, p.pc, dz(conv[0].ret.disc) == 1)[0]:
+            continue          # error while re-arming an emulated level-triggered fd: returned
+        if p.status == "return" or p.status.startswith("cut"):
+            if not ne:
+                c.fail("timer_wheel_not_drained_after_the_wait", p)
+                continue
+            if p.status == "return":
+                last = ne[-1]
+                if not entails(ctx, p.pc, dz(last.ret.disc) == 0)[0]:
+                    c.fail("timer_wheel_drain_stops_before_it_is_empty_of_due_entries", p)
+            pushes = calls(p, r"Vec::<PollEvent>::push$")
+            somes = [e for e in ne if entails(ctx, p.pc, dz(e.ret.disc) == 1)[0]]
+            if len(pushes) != len(somes) and p.status == "return":
+                c.fail("expired_timer_not_turned_into_an_event", p)
+            for e, pu in zip(somes, pushes):
+                ev = pu.args[1]
+                tup = e.ret.payloads["Some"][0]
+                tok = tup.fields[1] if isinstance(tup, Agg) else (tup.fields.get(1) if isinstance(tup, Sym) else None)
+                if not (isinstance(ev, Agg) and len(ev.fields) == 2 and ev.fields[1] is tok):
+                    c.fail("timer_event_does_not_carry_the_entrys_token", p)
+    return c.res(paths, cfg)
